@@ -1,6 +1,7 @@
 package stickycookie
 
 import (
+	"bytes"
 	"crypto/aes"
 	"crypto/cipher"
 	"crypto/rand"
@@ -11,7 +12,6 @@ import (
 	"io"
 	"net/url"
 	"strconv"
-	"strings"
 	"time"
 
 	"github.com/vulcand/oxy/v2/internal/holsterv4/clock"
@@ -117,10 +117,12 @@ func (v *AESValue) fromValue(obfuscatedStr string) (string, error) {
 	}
 
 	if v.ttl > 0 {
-		rawParts := strings.Split(string(raw), "|")
-		if len(rawParts) < 2 {
+		// the expiration follows the last separator: the URL itself may contain '|'
+		sep := bytes.LastIndexByte(raw, '|')
+		if sep < 0 {
 			return "", fmt.Errorf("TTL set but cookie doesn't contain an expiration: '%s'", raw)
 		}
+		rawParts := []string{string(raw[:sep]), string(raw[sep+1:])}
 
 		// validate the ttl
 		i, err := strconv.ParseInt(rawParts[1], 10, 64)
